@@ -19,14 +19,14 @@ CHECKS = {
  "C13": ("fault_enumeration", "4.C13", "enumeration of every sink fault point (write call x fault kind, and byte offsets) for representative histories, plus seeded short-write/EINTR schedules; prefix/no-further-write/equality oracles"),
  "C15": ("exploration", "4.C15", "ordering of recorded sample offsets against a stable-merge model over adversarial submission orders"),
  "C16": ("exploration", "4.C16", "refinement with boundary-biased histories: every decoded numeric field recomputed from the model in 128-bit arithmetic, or the producing call must have failed"),
- "C17": ("exploration", "4.C17", "seeded search over thread schedules (real threads under a baton scheduler), muxer migration, wall-clock jumps, hash-seed changes and sink types; solo run as reference"),
+ "C17": ("exploration", "4.C17", "seeded search over thread schedules (real threads under a baton scheduler handing over at API calls and sink writes; thorough tier also Miri's seeded scheduler with pre-emption inside library calls), muxer migration, wall-clock and monotonic-clock jumps, hash-seed changes and sink types; solo run as reference"),
  "C20": ("exploration", "4.C20", "the real CLI binary as a child process in a generated file-system state with injected disk faults; in-process library run as reference"),
 }
 
 NOTES = {
  "C12": "trusts the panic hook / catch_unwind to observe every panic; aborts, stack overflows and hangs are observed as worker deaths / watchdog expiry",
  "C13": "the (history x write call x fault kind) space of the quick tier is enumerated completely; byte offsets completely for files up to 4 KiB",
- "C17": "a serialising scheduler cannot expose data races inside unsafe code; the library contains no unsafe, statics or atomics (checked by grep in the check)",
+ "C17": "the baton scheduler serialises at seams only; interleavings inside a library call (and data races / UB) are explored in the thorough tier by Miri over a small fixed family of programs (2..3 muxers, H.264/H.265 + AAC), 168 seeded interleavings per run",
  "C20": "option product is ordinary seeded workload; only the environment-fault clause and the process/file boundary are simulation targets (DESIGN.md 4.C20)",
 }
 
